@@ -314,6 +314,11 @@ class Interp:
                     env['__iter'] = cur
                     return SOME(args[0][2][i]), args
                 return NONE, args
+        # Option / Result combinators on known values, applying closures / constructor fn items abstractly
+        if not c.get('local') and ('option::Option' in d or 'result::Result' in d) and args and args[0][0] == 'adt' and depth < self.max_depth:
+            r_ = self._combinator(fn, name, args, depth)
+            if r_ is not None:
+                return r_, args
         # structural equality
         if path_endswith(tr, 'cmp::PartialEq') and name in ('eq', 'ne') and len(args) == 2:
             a, b = args
@@ -379,6 +384,81 @@ class Interp:
                 nm = '%s#%d' % (nm, self.serial)
                 break
         return ('app', nm, tuple(args)), args
+
+    def apply_callable(self, f, argv, depth):
+        """apply an abstract callable (closure value or fn item) to abstract arguments; returns a value, ('paths', ..) or None"""
+        if f[0] == 'closure':
+            body = self.prog.by_path.get(f[1])
+            if body is None:
+                return None
+            packed = [('tuple', tuple(f[2]))] + list(argv)
+            # closures take their arguments as individual MIR parameters after the environment
+            return ('paths', self.paths(body, packed, depth + 1))
+        if f[0] == 'fn':
+            target = self.prog.by_path.get(f[1])
+            if target is not None:
+                return ('paths', self.paths(target, list(argv), depth + 1))
+            # tuple-variant / tuple-struct constructor used as a function (`.map(Value::Int)`)
+            parent, _, vname = f[1].rpartition('::')
+            a = self.prog.adts.get(parent)
+            if a is not None:
+                for v in a['variants']:
+                    if v['name'] == vname and len(v['fields']) == len(argv):
+                        return ADT(a['path'], v['idx'], vname, list(argv))
+            if f[1] in ('std::option::Option::Some',) and len(argv) == 1:
+                return SOME(argv[0])
+            if f[1] in ('std::result::Result::Ok',) and len(argv) == 1:
+                return OK(argv[0])
+            if f[1] in ('std::result::Result::Err',) and len(argv) == 1:
+                return ERR(argv[0])
+        return None
+
+    def _combinator(self, fn, name, args, depth):
+        v = args[0]
+        is_opt = is_adt(v, 'option::Option')
+        is_res = is_adt(v, 'result::Result')
+        if not (is_opt or is_res):
+            return None
+        good = v[3] in ('Some', 'Ok')
+        payload = v[4][0] if v[4] else None
+        wrap = (lambda x: SOME(x)) if is_opt else (lambda x: OK(x))
+
+        def lift(res, post):
+            """post-process the outcome of applying a callable: res is a value or ('paths', [...])"""
+            if res is None:
+                return None
+            if isinstance(res, tuple) and res and res[0] == 'paths':
+                return ('paths', [(post(val) if val != ('diverge',) else val, eff) for val, eff in res[1]])
+            return post(res)
+        if name == 'map' and len(args) == 2:
+            return lift(self.apply_callable(args[1], [payload], depth), wrap) if good else v
+        if name == 'and_then' and len(args) == 2:
+            return lift(self.apply_callable(args[1], [payload], depth), lambda x: x) if good else v
+        if name == 'map_err' and is_res and len(args) == 2:
+            return v if good else lift(self.apply_callable(args[1], [payload], depth), lambda x: ERR(x))
+        if name == 'or_else' and len(args) == 2:
+            return v if good else lift(self.apply_callable(args[1], [payload] if is_res else [], depth), lambda x: x)
+        if name == 'unwrap_or' and len(args) == 2:
+            return payload if good else args[1]
+        if name == 'unwrap_or_else' and len(args) == 2:
+            return payload if good else lift(self.apply_callable(args[1], [payload] if is_res else [], depth), lambda x: x)
+        if name == 'ok' and is_res and len(args) == 1:
+            return SOME(payload) if good else NONE
+        if name == 'err' and is_res and len(args) == 1:
+            return NONE if good else SOME(payload)
+        if name == 'ok_or' and is_opt and len(args) == 2:
+            return OK(payload) if good else ERR(args[1])
+        if name == 'ok_or_else' and is_opt and len(args) == 2:
+            return OK(payload) if good else lift(self.apply_callable(args[1], [], depth), lambda x: ERR(x))
+        if name in ('is_some', 'is_ok') and len(args) == 1:
+            return C(good)
+        if name in ('is_none', 'is_err') and len(args) == 1:
+            return C(not good)
+        if name in ('cloned', 'copied', 'as_ref', 'as_mut', 'as_deref') and len(args) == 1:
+            return v
+        if name == 'map_or' and len(args) == 3:
+            return lift(self.apply_callable(args[2], [payload], depth), lambda x: x) if good else args[1]
+        return None
 
     # -- function evaluation: all paths
     def paths(self, fn, args, depth=0):
